@@ -101,7 +101,8 @@ impl PrettyPrint {
             .chars()
             .skip(first_non_ws)
             .take(offset)
-            .map(|c| if c.is_whitespace() { c } else { ' ' })
+            // (only the tab: a carriage return or a form feed would move the marker)
+            .map(|c| if c == '\t' { c } else { ' ' })
             .collect();
         base.push_str(&" ".repeat(offset.saturating_sub(base.chars().count())));
         base.push_str(&arrows);
